@@ -129,10 +129,29 @@ SUPPLIED["owner"] = (bech32("addr_test", OWNER), {"k": "address", "v": OWNER})
 SUPPLIED["quantity"] = ("12345678901234567890", {"k": "number", "num": I(12345678901234567890)})
 
 
-def template_tx():
-    """an IR template declaring the four parameters (values reach an output and metadata)"""
+def template_tx(placement=0):
+    """an IR template declaring the four parameters.  placement 0: the values reach an output and the metadata; 1, 2:
+    every parameter is mentioned in ONE other section of the transaction only (signers, validity, a chain-specific
+    directive, a burn / mint, an input redeemer, collateral, references) -- what the request parser hands over is what
+    the template declares, wherever it declares it"""
     pv = lambda n, t: {"k": "p_value", "name": n, "ty": t}  # noqa
     none = {"k": "none"}
+    lovelace = lambda e: {"k": "assets", "items": [{"policy": none, "name": none, "amount": e}]}  # noqa
+    const_out = {"address": {"k": "address", "v": OWNER}, "datum": none, "amount": lovelace({"k": "number", "num": I(2000000)}), "optional": False}
+    if placement == 1:
+        return {"fees": {"k": "p_fees"}, "references": [], "inputs": [], "outputs": [const_out],
+                "validity": {"k": "some", "since": pv("quantity", "Int"), "until": none}, "mints": [], "burns": [],
+                "adhoc": [{"name": "custom", "data": [{"key": "note", "val": pv("memo", "Bytes")}]}],
+                "collateral": [], "signers": {"k": "some", "items": [pv("owner", "Address")]},
+                "metadata": [{"key": {"k": "number", "num": I(1)}, "value": pv("flag", "Bool")}]}
+    if placement == 2:
+        q = {"address": pv("owner", "Address"), "min_amount": none, "ref": none, "many": False, "collateral": True}
+        return {"fees": {"k": "p_fees"}, "references": [pv("memo", "Bytes")],
+                "inputs": [{"name": "src", "utxos": {"k": "utxo_set", "utxos": []}, "redeemer": pv("flag", "Bool")}], "outputs": [const_out],
+                "validity": {"k": "none"}, "mints": [],
+                "burns": [{"amount": {"k": "assets", "items": [{"policy": {"k": "bytes", "v": [0x11] * 28}, "name": {"k": "bytes", "v": [97]},
+                                                                "amount": pv("quantity", "Int")}]}, "redeemer": none}],
+                "adhoc": [], "collateral": [{"utxos": {"k": "p_input", "name": "collateral", "q": q}}], "signers": {"k": "none"}, "metadata": []}
     return {"fees": {"k": "p_fees"}, "references": [], "inputs": [],
             "outputs": [{"address": pv("owner", "Address"), "datum": pv("flag", "Bool"),
                          "amount": {"k": "assets", "items": [{"policy": none, "name": none, "amount": pv("quantity", "Int")}]}, "optional": False}],
@@ -192,8 +211,9 @@ def check(tier, seed):
     rep.add_tlc(reqs)
     rep.exhaustive = True
     # the template the requests carry
-    enc = core.run_driver([{"id": 0, "cmd": "interop", "items": [{"op": "encode_tir", "tx": template_tx()}]}])[0]["events"][0]
-    tir_hex = enc["hex"]
+    encs = core.run_driver([{"id": 0, "cmd": "interop", "items": [{"op": "encode_tir", "tx": template_tx(k)} for k in (0, 1, 2)]}])[0]["events"]
+    tir_hexes = [e["hex"] for e in encs]
+    tir_hex = tir_hexes[0]
     items, meta = [], []
     for c in forms.cases:
         c = dict(c)
@@ -213,7 +233,7 @@ def check(tier, seed):
         if c["extras"]:
             args["undeclared"] = 5
             envm["also_undeclared"] = "x"
-        doc = {"tir": envelope(c["envelope"], tir_hex), "args": args, "env": envm}
+        doc = {"tir": envelope(c["envelope"], tir_hexes[len(items) % 3]), "args": args, "env": envm}
         tag = {"declared": sorted(PARAM_TYPES), "args": sorted(c["args"]), "env": sorted(c["env"]), "envelope": c["envelope"],
                "envelope_class": "ok" if c["envelope"] in ("ok", "base64_ok") else "bad",
                "supplied": {k: v[1] for k, v in SUPPLIED.items()}, "site": "", "msg": ""}
